@@ -50,6 +50,9 @@ def one(sid, tier, only_checks=None):
         rc0, out0 = sh([PY, demo], cwd=wt, timeout=900)
         res['demo_clean'] = rc0
         rc, out = sh(['git', 'apply', os.path.join(d, 'patch.diff')], cwd=wt)
+        if rc:      # the tree has moved on since the change was written (later fix: commits): try a three-way merge
+            rc, out = sh(['git', 'apply', '-3', os.path.join(d, 'patch.diff')], cwd=wt)
+            res['applied'] = 'three-way'
         if rc:
             res['error'] = 'patch does not apply to the current tree: ' + out[-300:]
             return res
